@@ -29,6 +29,9 @@
 #include <iostream>
 #include <fstream>
 
+#ifdef VERIF_COVERAGE_BUILD
+extern "C" void __gcov_dump(void);
+#endif
 using namespace vh;
 
 // ------------------------------------------------------------------ event log
@@ -368,5 +371,8 @@ int main(int argc, char **argv)
 		fputs("CRASH\n", stdout); fflush(stdout);
 		_exit(70);
 	}
+#ifdef VERIF_COVERAGE_BUILD
+	__gcov_dump();
+#endif
 	_exit(0);
 }
